@@ -13,6 +13,7 @@ from typing import Tuple, Union, List, Iterable, Any, Optional, BinaryIO, TextIO
 import bitarray
 import bitarray.util
 import bitstring
+import os as _os
 from bitstring.bitstore import BitStore
 from bitstring import bitstore_helpers, utils
 from bitstring.dtypes import Dtype, dtype_register
@@ -27,6 +28,11 @@ TBits = TypeVar("TBits", bound='Bits')
 
 # Maximum number of digits to use in __str__ and __repr__.
 MAX_CHARS: int = 250
+
+# Verification hook (off by default): when BITSTRING_VERIF=1 is in the environment at import time a test
+# harness may set _VERIF_TOFILE_CHUNK_BITS to make tofile() use a smaller chunk size.
+_VERIF_ENABLED: bool = _os.environ.get('BITSTRING_VERIF') == '1'
+_VERIF_TOFILE_CHUNK_BITS = None
 
 
 class Bits:
@@ -1507,6 +1513,8 @@ class Bits:
         """
         # If the bitstring is file based then we don't want to read it all in to memory first.
         chunk_size = 8 * 100 * 1024 * 1024  # 100 MiB
+        if _VERIF_ENABLED and _VERIF_TOFILE_CHUNK_BITS is not None:
+            chunk_size = _VERIF_TOFILE_CHUNK_BITS
         for chunk in self.cut(chunk_size):
             f.write(chunk.tobytes())
 
